@@ -482,6 +482,91 @@ PROPS["C20"] = {
                     "of each type depends only on the case; types SG*U are never registered by any case"],
 }
 
+PROPS["C05"] = {
+    "lean_modules": ["AvroModel.Props.C05"],
+    "required_theorems": ["build_wt", "build_wt_kind", "build_wt_union", "build_wt_branches", "build_wt_fields",
+                          "wt_no_stuck", "wt_preserves", "wt_fields_preserve", "decode_stays_typed", "zero_hasType",
+                          "int_width_exact_long", "int_width_exact", "kind_mismatch_rejected", "mismatch_rejected",
+                          "mismatch_rejected_ptr", "mismatch_rejected_elem", "mismatch_rejected_value",
+                          "long_rejected", "unsigned_rejected", "fixed_size_rejected", "fixed_kind_rejected", "bytes_rejected",
+                          "string_rejected", "boolean_rejected", "float_rejected", "double_rejected", "record_rejected",
+                          "array_rejected", "map_rejected", "map_key_rejected", "enum_rejected",
+                          "leaf_table_sound", "leaf_sound", "leaf_model_table", "leaf_model_agrees", "leaf_accepted_wt",
+                          "null_element_witness"],
+    "harness": ["C05"],
+    "careful": True,
+    "level_text": "Proof: over the codec model a typing judgement wt c T says that every load/store of codec c through p:*T fits T (integer store "
+                  "width = field size, fixed length = array length, record targets = field indices of this struct, element / pointee / value "
+                  "types of this slice / pointer / map). Lean proves, for every schema, Go type, omit flag and recursion budget (library "
+                  "registrations): (build_wt, with components for buildKind / unions / branches / record fields) whatever buildCodec returns "
+                  "for a Go type is wt against it; (wt_no_stuck, wt_preserves, decode_stays_typed) a wt codec reading ANY bytes into ANY "
+                  "destination of that type never stores through a pointer of the wrong shape and leaves a value of the destination's own type "
+                  "(int16 field: 16-bit range; [n]byte: n bytes; struct: its fields) - induction on the step budget over the six mutually "
+                  "recursive read functions; (kind_mismatch_rejected + one lemma per clause) every kind the guards of build.go rule out - "
+                  "long/int against anything but int16/int32/int64/int, fixed against another length or a non-byte array, bytes against a non-byte "
+                  "slice, string/boolean/float/double/record/array/map kind mismatches, maps with non-string keys, enum - is a build error at every "
+                  "budget, also behind pointers and as slice element / map value; (int_width_exact) an integer field gets the codec of exactly its "
+                  "width. Tie to the code: factgen re-measures on EVERY run, by executing the real Schema.Codec and Read, a table of 23 schema "
+                  "types x 44 Go kinds (1012 rows): accepted?, and for accepted pairs the byte range modified when valid all-ones-like encodings "
+                  "are decoded into field A of struct{Pre [2]uint64; A T; Post [2]uint64} pre-filled with a canary; leaf_sound (kernel decide, "
+                  "lifted to all rows) proves every accepted pair stays inside [0,sizeof T) without panic/crash, leaf_model_agrees that the model "
+                  "accepts exactly the implementation's pairs, leaf_accepted_wt that the model codec of every accepted pair is wt. Differential "
+                  "run: the same matrix alone / behind * and ** / nullable pointer / slice element / map value / nested struct with in- and "
+                  "out-of-range values, destination struct between canaries with pre-filled sibling fields not named in the schema; random "
+                  "records with one leaf type replaced by a random kind.",
+    "level_note": "Trusted: Lean kernel; the shared codec model; stores are modelled at the level of abstract Go values (stuck = store through a "
+                  "pointer of the wrong shape), raw byte footprints are measured, not modelled (regenerated LeafTable + canaries). Side condition "
+                  "allocOK (every array item / map value / pointer target codec allocates) fails only for null-typed elements (theorem "
+                  "null_element_witness); Go types where a named type names another named type or time.Time / null.* are outside build_wt "
+                  "(hypothesis T.wf). Known finding D28: map<null> (or a union of nulls) as map value builds and panics in mapassign at decode time.",
+    "rule": "One (leaf) case evaluating the regenerated table; for every schema type (23) x Go kind (42) x context (alone, *T, **T, nullable *T, "
+            "[]T, map[string]T, nested struct) x value (all values alone, first three elsewhere in quick tier): one tread case; plus random "
+            "records (wgen) decoded into the compatible struct with one leaf type replaced by a random kind (3 of 4) or unchanged (1 of 4).",
+    "trusted": ["harness/cmd/factgen/leaf.go: measurement of the store footprint by comparing the holder's bytes with a canary fill "
+                "(pointer-carrying fields are zero-filled instead, their inside footprint is reported as the whole field)"],
+    "assumptions": ["amd64 layout; one PRNG; the holder struct is built with reflect.StructOf"],
+}
+
+PROPS["C11"] = {
+    "lean_modules": ["AvroModel.Props.C11"],
+    "required_theorems": ["new_matches_read", "new_matches_type", "wt_allocTyped", "alloc_typed", "pointer_words",
+                          "pinned_map_counterfactual", "write_nil_flag_free", "alloc_facts_ok", "alloc_facts_ok_rows",
+                          "alloc_facts_complete", "slice_header_layout_ok", "mapiter_layout_ok"],
+    "harness": ["C11"],
+    "careful": True,
+    "level_text": "PARTIAL BY NATURE (the garbage collector is not modelled). Contract assumed: an object survives iff it is reachable through "
+                  "words that the type it was allocated with marks as pointers. Under that contract GC-visibility is a static property of codec "
+                  "trees, proved in Lean over a typed-allocation model (AllocShape: n scalar bytes / pointer slot / string header / slice header / "
+                  "struct allocated with its own reflect.Type / nothing): (new_matches_read) every codec's New allocates exactly what its own Read "
+                  "assumes behind p; (new_matches_type) a well-typed allocating codec allocates the collector-visible shape of the Go type it was "
+                  "built for; (alloc_typed) for EVERY codec tree buildCodec produces (all schemas, Go types, budgets; library registrations) at every "
+                  "pointer-target, map-value and array-item position the allocation referenced from the parent has the shape of the parent's static "
+                  "element type - so every pointer the decoder stores lands in a pointer-typed word of a correctly typed object (uses C05.build_wt). "
+                  "Tie to the source, regenerated by go/ast on every run: what every `return` of every New method of avro, avro/time, avro/null "
+                  "yields (r.Alloc(<reflect.Type var>) with the variable's initialiser, unsafe_NewArray(elem, n), nil, delegation, other), the "
+                  "element type arrayCodec.resizeSlice allocates with, the layout of sliceHeader and mapiter; alloc_facts_ok (kernel decide) proves "
+                  "every row has an allowed form and agrees with newShape (reverting the map-slot repair, allocating the pointer slot as uintptr or "
+                  "a backing array as bytes breaks it), slice_header_layout_ok / mapiter_layout_ok check the overlay structs (pointer prefix, size "
+                  ">= reflect's iterator state of the toolchain in use). SEARCHED (not proved): a GC-stress harness decodes generated encodings "
+                  "into generated targets - forced shapes *map[string]T, map[string]map[string]T, *map[string]*map, map[string][]T, map[string]*[]T, "
+                  "*[]T, *[]*[]T, *[4]byte, []*[16]byte, []*T, *struct, []*struct, map[string]*struct, nullable unions of those, time.Time, null.* "
+                  "plus random schemas - with runtime.GC() and same-size-class allocation churn (a) inside the ReadFile callback between records "
+                  "with earlier records retained, (b) after decode before inspection, (c) before encode and during encode from another goroutine "
+                  "with SetGCPercent(1); every value is dumped and compared with a control decode; a changed value, panic or fatal crash is the "
+                  "failing schedule.",
+    "level_note": "PARTIAL: proved = allocation typing of codec trees + agreement of the New methods with the model (regenerated facts); not "
+                  "modelled = the collector, escape analysis / stack maps, reflect.MakeMap / mapassign / typedslicecopy internals, the exact layout of "
+                  "the runtime's map iterator (only size and pointer prefix of the library's overlay are checked; the runtime iterator size is taken "
+                  "from reflect.MapIter's state field by reflection, an upper bound of the legacy iterator the linkname entry points use); searched "
+                  "= GC-stress runs. Trusted: Lean kernel; factgen's go/ast extraction of New methods; dumpVal comparison in the harness.",
+    "rule": "One (facts) case; 28 forced target shapes x 3 (thorough 25) random values x 3 modes (after / filecb / encode); 150 (thorough 3000) "
+            "random record schemas (no general unions) with derived covering targets x 3 modes. Values are drawn until at least two leaves are "
+            "non-empty.",
+    "trusted": ["harness/cmd/factgen/alloc.go: syntactic (go/ast) extraction of what New methods return",
+                "the Go runtime's own checks (bad pointer in heap, fault on reclaimed memory) as crash oracle of the search"],
+    "assumptions": ["collector contract: survival iff reachable through pointer-typed words of typed allocations"],
+}
+
 PROPS["C02"]["harness"] = [("WR2", "C02"), ("E2E", "C02")]
 PROPS["C01"]["harness"] = [("E2E", "C01"), ("BIG", "C01")]
 PROPS["C03"]["harness"] = [("RD", "C03"), ("BIG", "C03")]
